@@ -74,6 +74,31 @@ def install(sim, fs=None):
     import socketserver
     patch(socketserver.TCPServer, 'server_bind', lambda self: None)
     patch(socketserver.TCPServer, 'server_activate', lambda self: None)
+    # threads that the code under test starts itself (socketserver's per-connection threads
+    # through ThreadingMixIn.process_request, or anything an entity starts on its own) are
+    # simulator tasks; likewise queues, clocks and events of any library module that uses them
+    def on_start(thr):
+        tgt = getattr(thr._target, '__name__', '')
+        if tgt == 'process_request_thread':
+            return 'acc%d' % len(world.acceptor_started), 'acceptor'
+        return None
+
+    def started(thr, task):
+        if getattr(thr._target, '__name__', '') == 'process_request_thread':
+            world.acceptor_started.append(task)
+    on_start.started = started
+    world.acceptor_started = []
+    thread_cls = simnet.make_sim_thread_class(sim, on_start)
+    tns_threads = simnet.ThreadingNS(sim, _real_threading, thread_cls)
+    patch(socketserver, 'threading', tns_threads)
+    for mod in (applicationentity, asceprovider, sopclass, fsm, pynetdicom2):
+        if hasattr(mod, 'threading') and mod.threading is _real_threading:
+            patch(mod, 'threading', tns_threads)
+        if hasattr(mod, 'queue') and getattr(mod.queue, '__name__', '') == 'queue':
+            patch(mod, 'queue', simnet.QueueNS(sim))
+        if hasattr(mod, 'time') and getattr(mod.time, '__name__', '') == 'time' and \
+                mod is not asceprovider:
+            patch(mod, 'time', tns)
     if fs is not None:
         patch(applicationentity, 'tempfile', fs.tempfile_ns())
         patch(pynetdicom2, 'open', fs.open)
